@@ -3,10 +3,11 @@
 cd /verif
 run() { engine/seed_isolated.sh "$@"; }
 slot1() {
-run C11-len-check-one-sided 1 C11 --tier thorough --only c11_q_ll_len_mismatch_add
 run C11-scalar-left-compare-swapped 1 C11 --tier thorough --only c11_q_sl_gt
 run C11-coalesce-scalar-left-mirrored-b 1 C11 --tier thorough --only c11_q_sl_coalesce
 run C11-modulo-list-list-euclid-b 1 C11 --tier thorough --only c11_t_ll_mod
+run C11-len-check-one-sided 1 C11 --tier thorough --only c11_q_ll_len_mismatch_add
+run C12-m1-number-total-cmp 1 C12 --tier quick --only c12_q_num_num_trichotomy
 run C12-m2-lte-gte-equality-shortcut 1 C12 --tier quick --only c12_q_dot_ops_unordered
 run C12-number-equality-tolerance-b 1 C12 --tier quick --only c12_q_num_num_trichotomy
 run C14-access-negative-fraction 1 C14 --tier quick --only c14_q_index
@@ -18,24 +19,25 @@ slot2() {
 run C15-max-varargs-fold-seed 2 C15 --tier quick --only c15_q_max3
 run C15-percentile-p50-median-path 2 C15 --tier quick --only c15_q_percentile4
 run C15-percentile-upper-bound-exclusive-b 2 C15 --tier quick --only c15_q_percentile3
-run C01-round-negative-places 2 C01 --tier quick --only c01_q_num2_two_doubles
-run C01-chunk-fractional-size 2 C01 --tier quick --only c01_q_num2_list_double
-run C01-display-number-near-1e15 2 C01 --tier quick --only c01_q_math1
+run C01-round-negative-places 2 C01 --tier quick --only c01_q_round_dd
+run C01-chunk-fractional-size 2 C01 --tier quick --only c01_q_chunk_sizes
+run C01-display-number-near-1e15 2 C01 --tier quick --only c01_q_sqrt_d
 run C07-coalesce-joins-power-level 2 C10 --tier quick
 run C07-assoc-parent-drops-right-parens 2 C07 --tier quick
 run C07-multiline-record-dynamic-key 2 C07 --tier quick
 run C04-arity-optional-before-rest-counted-required 2 C04 --tier thorough
-run C04-capture-nested-lambda-param-leaks-into-outer-bound-set 2 C04 --tier thorough
-run C04-binding-self-name-shadows-same-named-parameter 2 C04 --tier thorough
 }
 slot3() {
-run C13-via-builtin-no-index 3 C13 --tier quick --only c13_q_via_map_min
-run C13-filter-nonbool-lenient 3 C13 --tier quick --only c13_q_where_filter_fail_alike
-run C13-into-empty-list-shortcut 3 C13 --tier quick --only c13_q_empty_list_into_via
 run C18-depth-guard-named-only 3 C18 --tier quick
-run C02-sort-numeric-fastpath-in-place 3 C02 --tier quick --only c02_q_list_builtin
-run C02-unique-hash-order-leak 3 C02 --tier quick --only c02_q_list_builtin
+run C02-sort-numeric-fastpath-in-place 3 C02 --tier quick --only c02_q_sort_pure
+run C02-unique-hash-order-leak 3 C02 --tier thorough --only c02_t_unique_pure
 run C02-sorted-numbers-cache-across-heaps 3 C02 --tier quick --only c02_q_median_two_heaps
+run C04-capture-nested-lambda-param-leaks-into-outer-bound-set 3 C04 --tier quick
+run C04-binding-self-name-shadows-same-named-parameter 3 C04 --tier quick
+run C17-a_table_picogram_coefficient 3 C17
+run C17-b_formula_fahrenheit_to_kelvin_ratio 3 C17
+run C17-c_convert_same_name_shortcut 3 C17
+run C17-d_resolve_exact_uses_lowercased 3 C17
 }
 slot1 > .cache/logs/matrix1.out 2>&1 &
 slot2 > .cache/logs/matrix2.out 2>&1 &
